@@ -199,6 +199,14 @@ def gen_tiny_rank_case(rng, seed, i):
     nsv = full_svd_len(spec)
     opts = {'chi_max': rng.choice([None, None, 100, 100, 1000, max(1, nsv // 101), 1, 2, 'absent', 'absent']), 'svd_min': cut[0], 'trunc_cut': cut[1],
             'chi_min': rng.choice(['absent', 'absent', None, 2]), 'degeneracy_tol': rng.choice(['absent', None, 1e-6])}
+    # stratified (not left to chance): every outcome of the chi_max tests inside the catastrophic-reduction branches of
+    # svd_theta AND eigh_rho (eigh: i % 4 in (2, 3)) - chi_max None / absent (default) / equal to the number of kept values
+    if i % 4 == 2:
+        opts['chi_max'] = None if i % 8 == 2 else 'absent'
+        if opts['svd_min'] in (None, 'absent') and opts['trunc_cut'] in (None, 'absent'):
+            opts['svd_min'] = 1e-6
+    elif i % 4 == 3:
+        opts['chi_max'] = 1
     return {'seed': seed, 'opts': opts, 'eigh': (i // 2) % 2 == 1, 'spec': spec, 'tiny_rank': True, 'config': rng.random() < 0.3,
             'inner_labels': rng.choice([None, None, ['vR', 'vL'], ['r', 'l'], ['vR*', 'vL*']])}
 
@@ -507,6 +515,11 @@ def main(ctx):
                 ctx.fail('oracle', 'svd_theta/eigh_rho raised: %s' % x['error'],
                          {'stream': 'decomp', 'case': c}, match_key='C15:decomp-raises')
                 continue
+            if 'inconsistent' in x:
+                ctx.count('decomp', c, nontrivial=True)
+                ctx.fail('oracle', 'svd_theta/eigh_rho returned objects that cannot be combined as documented (%s)' % x['inconsistent'],
+                         {'stream': 'decomp', 'case': c, 'impl': x}, match_key='C15:decomp')
+                continue
             sv = x['svd']
             probs = []
             tol = 1e-10
@@ -611,6 +624,10 @@ def main(ctx):
     c15_streams.run(ctx, rng)
     ctx.c15cov.table(ctx)
     ctx.assumptions += [
+        'C15 truncate-float: a case whose decisive comparison (value vs svd_min, weight vs trunc_cut^2, log-ratio vs degeneracy_tol) is within 1e-12 relative of its threshold '
+        'without being exactly equal, or whose squares underflow, is not judged (float rounding of log / cumsum is not modelled); negative Schmidt values are outside the quantifier',
+        'C15 qr-direct: equivalent presentations of one input (gauged total charges, unblocked old bond leg) are required to give the same decomposition (deterministic '
+        'algorithm); assert-guarded preconditions of _qr_theta_Y0 / _eig_based_svd (expand None/0, negative min_block_increase, rank != 2) are outside the quantifier',
         'C15 model: spectra are integers (numerators of dyadic rationals), zeros handled as in the header of coq/Model/Truncate.v',
         'C15 not modelled: float rounding inside np.log / np.linalg.norm (generators keep all compared quantities >= 2^-20 apart or exactly equal); LAPACK in svd_theta/eigh_rho (oracle only; the bookkeeping around it is compared with Model/TruncBook.v: squares-only variants to 1e-9 in stream book, root-input variants svd_theta_book/eigh_rho_book in streams svd-exact/eigh-exact by exact equality when every model value is dyadic and otherwise within 2^-50 (svd_theta) / 2^-49 (eigh_rho) relative, decided inside Coq); decompose_theta_qr_based has no Coq model: dense numpy oracle only (streams qr-direct, qr-engine)',
     ]
@@ -629,4 +646,15 @@ RULE = ('truncate: random integer spectra (length 1-40; exact ties, zeros, sorte
         'sum-of-squares-a-power-of-4 tuples, eigenvalue lists with kept/total a rational square; zeros; scaled by 2^-k) x options forcing the cut by '
         'chi_max / svd_min / trunc_cut, non-trivial when truncated or non-degenerate.  qr-direct / qr-engine: decompose_theta_qr_based on two-site '
         'wave functions of small random TFI / XXZ chains (no charge, parity, Sz) x chi_max / svd_min / trunc_cut / expansion rate / min_block_increase / '
-        'move_right / eig-based SVD, directly and through QRBasedTEBDEngine (real time, imaginary sweeps), non-trivial when something was truncated.')
+        'move_right / eig-based SVD, directly and through QRBasedTEBDEngine (real time, imaginary sweeps), non-trivial when something was truncated; '
+        'qr-direct also presents the same wave function with non-zero total charges of the old tensors, with an old bond leg that is not blocked and with '
+        'the options as tenpy Config (result compared with the plain presentation).  '
+        'truncate (big): 101-140 values so that the DEFAULT chi_max decides.  truncate-float: float spectra off the dyadic grid in six strata (values around the '
+        'default thresholds 1e-14, 30 decades, near-degenerate multiplets x degeneracy_tol, values below 1e-100 next to exact zeros, 101-260 values, normalised decaying '
+        'Schmidt spectra) x options absent / None / values incl. 0.0 x input forms (strided view, read-only, Config, second call on the same options object); oracle in exact '
+        'rationals, cases within 1e-12 of a threshold not judged; non-trivial when truncated or >= 2 distinct values.  err-api: every public name of TruncationError '
+        '(copy, +, +=, sum, ov_err, repr in its 4 cases, defaulted arguments, HDF5 round trip; operands and results re-used).  decomp additionally draws qtotal_LR, UPLO '
+        '(other triangle overwritten with garbage), sort, Config options, absent options; tiny-rank cases also through eigh_rho.  eig-svd: _eig_based_svd directly, all '
+        'need_U / need_Vd / trunc_params combinations.  callers: MPS.compress_svd / MPS.compress on small chains (returned error = accumulated reports, norm = product of '
+        'renormalizations, dense distance = 1 - prod(1 - eps_i)).  coverage_table: names / branch outcomes / parameters of tenpy/linalg/truncation.py measured with '
+        'sys.monitoring in every implementation process; an unreached and unclassified item is a correspondence failure.')
